@@ -64,6 +64,8 @@ func (ps *pathState) drawChoice(name string, n int) int {
 	return k
 }
 
+var engineParams = map[string]int{}
+
 type zzFn func(fr *frame, args []value) value
 
 var zzIntrinsics map[string]zzFn
@@ -162,6 +164,7 @@ func init() {
 		},
 		"zzStub": func(fr *frame, a []value) value {
 			fr.i.stubs[strArg(a[0])] = a[1].(iface).v
+			fr.i.path.ex.usesStubs = true
 			return nil
 		},
 		"zzUnstub": func(fr *frame, a []value) value {
@@ -175,6 +178,12 @@ func init() {
 		},
 		"zzIte64": func(fr *frame, a []value) value {
 			return wrapTerm(types.Typ[types.Uint64], tIte(toTerm(a[0]), toTerm(a[1]), toTerm(a[2])))
+		},
+		"zzParam": func(fr *frame, a []value) value {
+			if v, ok := engineParams[strArg(a[0])]; ok {
+				return v
+			}
+			return int(fr.i.concInt(a[1]))
 		},
 		"zzIsSym": func(fr *frame, a []value) value {
 			return isSymbolic(a[0].(iface).v)
